@@ -75,6 +75,34 @@ def _cast(A, dt):
     return B, B.astype(float)
 
 
+@st.composite
+def _dead(draw, sides):
+    """'dead slice' class: one feature mode of X has an all-zero or constant slice at its first / last / a middle
+    index in every sample (padding, dead sensor, all-zero feature column for order-2 X): with a ridge term the
+    fitted factor rows are then exactly 0"""
+    if draw(st.integers(0, 2)) != 0:
+        return None
+    return {"k": draw(st.sampled_from(["zero", "zero", "const"])), "mode": draw(st.integers(0, len(sides) - 1)),
+            "at": draw(st.sampled_from(["first", "first", "last", "mid"]))}
+
+
+def _peff(sides, dead):
+    """number of features that vary after centring"""
+    P = gen.prod(sides)
+    return P if not dead else P - P // sides[dead["mode"]]
+
+
+def _xdata(seed, shape, kind, dead):
+    X = _data(seed, shape, kind)
+    if dead:
+        ax = dead["mode"] + 1
+        idx = {"first": 0, "last": shape[ax] - 1, "mid": shape[ax] // 2}[dead["at"]]
+        sl = [slice(None)] * X.ndim
+        sl[ax] = idx
+        X[tuple(sl)] = 0.0 if dead["k"] == "zero" else 2.0
+    return X
+
+
 def contract(X, W):
     """out[i, o...] = sum_f X[i, f...] W[f..., o...]   (einsum sublists)"""
     X, W = np.asarray(X), np.asarray(W)
@@ -96,7 +124,7 @@ def _reg_case(draw, est, ykind, tier):
     order = draw(st.integers(min_order, max_order))
     sides = draw(st.lists(st.integers(2, 4 if order <= 4 else 3), min_size=order - 1, max_size=order - 1))
     c = {"n": draw(st.integers(4, 15)), "sides": sides, "seed": draw(gen.seeds),
-         "xkind": draw(st.sampled_from(["normal", "normal", "int"])),
+         "xkind": draw(st.sampled_from(["normal", "normal", "int"])), "dead": draw(_dead(sides)),
          "ykind": draw(st.sampled_from(["random", "model"])),
          "reg": draw(st.sampled_from([1e-3, 0.03, 0.5, 1, 10])),
          "iters": draw(st.sampled_from([1, 2, 3, 10, 30])),
@@ -117,15 +145,19 @@ def _reg_case(draw, est, ykind, tier):
     return c
 
 
+def _dl(dead):
+    return "none" if not dead else f"{dead['k']}@{dead['at']}"
+
+
 def _fit_reg(est, case):
     n, sides, out = case["n"], tuple(case["sides"]), tuple(case["out"])
-    X = _data(case["seed"], (n,) + sides, case["xkind"])
+    X = _xdata(case["seed"], (n,) + sides, case["xkind"], case.get("dead"))
     rs = np.random.RandomState((case["seed"] + 11) % (2 ** 32))
     if case["ykind"] == "model":
         y = contract(X, rs.standard_normal(sides + out)) + 0.1 * rs.standard_normal((n,) + out)
     else:
         y = rs.standard_normal((n,) + out)
-    Xnew = _data(case["seed"] + 5, (case["n_new"],) + sides, case["xkind"])
+    Xnew = _xdata(case["seed"] + 5, (case["n_new"],) + sides, case["xkind"], case.get("dead"))
     seed = case["seed"] % 10007
     kw = {"reg_W": case["reg"], "n_iter_max": case["iters"], "verbose": 0,
           "random_state": seed if case["rs"] == "int" else np.random.RandomState(seed)}
@@ -144,7 +176,7 @@ def _reg_labels(est, case, e):
     rk = case["rank"] if est == "cp" else max(case["ranks"])
     return {"nontrivial": rk >= 2 or len(case["out"]) >= 1 or order >= 3,
             "labels": [f"order={order}", f"yorder={len(case['out'])}", f"rank={rk}", f"iters={case['iters']}",
-                       f"stopped_early={getattr(e, 'n_iterations_', case['iters']) < case['iters']}", f"lay_fit={case['lays'][0]}", f"lay_use={case['lays'][2]}", f"pdtype={case.get('pdtype')}",
+                       f"stopped_early={getattr(e, 'n_iterations_', case['iters']) < case['iters']}", f"lay_fit={case['lays'][0]}", f"lay_use={case['lays'][2]}", f"pdtype={case.get('pdtype')}", "dead=" + _dl(case.get("dead")),
                        f"rs={case['rs']}"]}
 
 
@@ -205,10 +237,11 @@ def _plsr_case(draw, ykind, tier, metamorphic=False):
     order = draw(st.integers(2, max_order))
     sides = draw(st.lists(st.integers(2, 4 if order <= 4 else 3), min_size=order - 1, max_size=order - 1))
     n = draw(st.integers(4, 15))
-    c = {"n": n, "sides": sides, "seed": draw(gen.seeds),
+    dead = draw(_dead(sides))
+    c = {"n": n, "sides": sides, "seed": draw(gen.seeds), "dead": dead,
          # the metamorphic relations need components the centred data can support; the direct
          # relations are identities that must also hold for unsupported (finite) components
-         "ncomp": draw(st.integers(1, min(3, n - 1, gen.prod(sides)) if metamorphic else 3)),
+         "ncomp": draw(st.integers(1, min(3, n - 1, _peff(sides, dead)) if metamorphic else 3)),
          "p": None if ykind == "yvec" else draw(st.integers(1, 3)),
          "ykind": draw(st.sampled_from(["random", "model"])),
          "xkind": "normal" if metamorphic else draw(st.sampled_from(["normal", "normal", "int"])),
@@ -226,7 +259,7 @@ def _plsr_case(draw, ykind, tier, metamorphic=False):
 def _plsr_data(case):
     n, sides = case["n"], tuple(case["sides"])
     p = case["p"]
-    X = _data(case["seed"], (n,) + sides, case["xkind"])
+    X = _xdata(case["seed"], (n,) + sides, case["xkind"], case.get("dead"))
     rs = np.random.RandomState((case["seed"] + 13) % (2 ** 32))
     ycols = 1 if p is None else p
     if case["ykind"] == "model":
@@ -237,7 +270,7 @@ def _plsr_data(case):
         Y[:, 0] = 1.5
     if p is None:
         Y = Y[:, 0]
-    Xnew = _data(case["seed"] + 5, (case["n_new"],) + sides, "normal")
+    Xnew = _xdata(case["seed"] + 5, (case["n_new"],) + sides, "normal", case.get("dead"))
     return X, Y, Xnew
 
 
@@ -314,7 +347,7 @@ def _plsr_labels(case, extra=()):
     order = len(case["sides"]) + 1
     return {"nontrivial": case["ncomp"] >= 2 or order >= 3,
             "labels": [f"order={order}", f"ncomp={case['ncomp']}", f"p={case['p']}", f"iters={case['iters']}", f"xkind={case['xkind']}",
-                       f"lay_fit={case['lays'][0]}", f"lay_use={case['lays'][2]}", f"const_first_Y_col={bool(case.get('const0'))}"] + list(extra)}
+                       f"lay_fit={case['lays'][0]}", f"lay_use={case['lays'][2]}", f"const_first_Y_col={bool(case.get('const0'))}", "dead=" + _dl(case.get("dead"))] + list(extra)}
 
 
 def o_plsr_scores(case):
@@ -527,7 +560,7 @@ def _reg_hist_case(draw, est, tier):
             out = [draw(st.integers(1, 3)) for _ in range(k)]
         return {"n": draw(st.integers(4, 12)), "sides": sides, "out": out, "seed": draw(gen.seeds),
                 "xkind": draw(st.sampled_from(["normal", "int"])), "ykind": draw(st.sampled_from(["random", "model"])),
-                "n_new": draw(st.integers(1, 4))}
+                "n_new": draw(st.integers(1, 4)), "dead": draw(_dead(sides))}
     A = dataset()
     same = draw(st.sampled_from(["same_shape", "same_shape", "other_shape"]))
     if same == "same_shape":
@@ -548,13 +581,13 @@ def _reg_hist_case(draw, est, tier):
 
 def _reg_dataset(d):
     n, sides, out = d["n"], tuple(d["sides"]), tuple(d["out"])
-    X = _data(d["seed"], (n,) + sides, d["xkind"])
+    X = _xdata(d["seed"], (n,) + sides, d["xkind"], d.get("dead"))
     rs = np.random.RandomState((d["seed"] + 11) % (2 ** 32))
     if d["ykind"] == "model":
         y = contract(X, rs.standard_normal(sides + out)) + 0.1 * rs.standard_normal((n,) + out)
     else:
         y = rs.standard_normal((n,) + out)
-    return X, y, _data(d["seed"] + 5, (d["n_new"],) + sides, "normal")
+    return X, y, _xdata(d["seed"] + 5, (d["n_new"],) + sides, "normal", d.get("dead"))
 
 
 def _new_reg(est, case):
@@ -615,7 +648,8 @@ def o_reg_history(est):
             close(got, f.predict(_L(Ai, case, 2)), f"{tag}/equals-fresh-estimator", rel=MREL, scale=max(contract_scale(A, W), 1e-300))
         return {"nontrivial": _refit_used(case["ops"]),
                 "labels": [f"shapes={case['shapes']}", f"n_ops={len(case['ops'])}", f"refit_used={_refit_used(case['ops'])}",
-                           f"pdtype={case.get('pdtype')}", f"lay_use={case['lays'][2]}"]}
+                           f"pdtype={case.get('pdtype')}", f"lay_use={case['lays'][2]}",
+                           "deadA=" + _dl(case["A"].get("dead"))]}
     return oracle
 
 
@@ -626,11 +660,12 @@ def _plsr_hist_case(draw, tier):
         sides = draw(st.lists(st.integers(2, 4), min_size=o - 1, max_size=o - 1))
         return {"n": draw(st.integers(5, 12)), "sides": sides, "seed": draw(gen.seeds),
                 "p": draw(st.sampled_from([None, 1, 2, 3])) if p == "draw" else p,
-                "ykind": draw(st.sampled_from(["random", "model"])), "xkind": "normal", "n_new": draw(st.integers(1, 4))}
+                "ykind": draw(st.sampled_from(["random", "model"])), "xkind": "normal", "n_new": draw(st.integers(1, 4)),
+                "dead": draw(_dead(sides))}
     A = dataset()
     same = draw(st.sampled_from(["same_shape", "same_shape", "other_shape"]))
     B = dict(A, seed=draw(gen.seeds)) if same == "same_shape" else dataset()
-    sup = min(min(d["n"] - 1, gen.prod(d["sides"])) for d in (A, B))
+    sup = min(min(d["n"] - 1, _peff(d["sides"], d["dead"])) for d in (A, B))
     return {"A": A, "B": B, "shapes": same, "ops": draw(_ops(extra=["transform_train", "transform_fresh", "transform_xy"])),
             "ncomp": draw(st.integers(1, min(3, sup))), "iters": draw(st.sampled_from([None, None, 3])), "lays": draw(LAYS)}
 
